@@ -273,3 +273,49 @@ func VP_C04_ReAdd() {
 	zzvp.Assert(zzvp.SnapEq(s0, zzvp.Snapshot(w)), "re-adding unchanged files changes nothing")
 	zzvp.Done()
 }
+
+// VP_C04_KindChange: a tracked file whose parent directory has been replaced by an (untracked) file no longer exists:
+// `add <path>` unstages it, `rm <path>` and `rm <dir>` drop it from the staging area; the untracked file standing in the
+// directory's place and every other entry stay as they are.
+func VP_C04_KindChange() {
+	vpInitRepo()
+	w := zzvp.Root()
+	maxc := zzvp.Param("complen", 2)
+	top := vpPath("k", 1, maxc)
+	leaf := vpPath("l", 1, maxc)
+	other := vpPath("o", zzvp.Param("depth", 2), maxc)
+	zzvp.Assume(other != top && !vpHasDirPrefix(other, top) && !vpHasDirPrefix(top, other))
+	zzvp.WriteFile(w+"/"+other, []byte("O"))
+	vpOK(zzvp.Run("add", other))
+	tracked := top + "/" + leaf
+	zzvp.WriteFile(w+"/"+tracked, []byte("1"))
+	vpOK(zzvp.Run("add", tracked))
+	if zzvp.Choose(2) == 1 {
+		vpOK(zzvp.Run("commit", "-m", "base"))
+	}
+	zzvp.RemoveAll(w + "/" + top)
+	zzvp.WriteFile(w+"/"+top, []byte("F"))
+	before, _ := vpReadIndex()
+	var r zzvp.Result
+	switch zzvp.Choose(3) {
+	case 0:
+		r = zzvp.Run("add", tracked)
+	case 1:
+		r = zzvp.Run("rm", tracked)
+	default:
+		r = zzvp.Run("rm", top)
+	}
+	zzvp.Assert(r.Exit == 0, "a named path that is tracked but no longer exists is unstaged by add and removed by rm")
+	after, ok := vpReadIndex()
+	var want []vpPair
+	for _, e := range before {
+		if e.path != tracked {
+			want = append(want, e)
+		}
+	}
+	zzvp.Assert(ok && vpSamePairList(after, want), "exactly the named tracked path is gone from the staging area")
+	f, fok := zzvp.ReadFile(w + "/" + top)
+	o, ook := zzvp.ReadFile(w + "/" + other)
+	zzvp.Assert(fok && string(f) == "F" && ook && string(o) == "O", "no untracked file and no other working file is removed or modified")
+	zzvp.Done()
+}
